@@ -92,6 +92,7 @@ C02CT = [("Mc.Props.C02Closed", "Mc.C02." + t) for t in ["C02_manage_accepted_up
         [("Mc.Props.C02Sem", "Mc.C02." + t) for t in ["C02_update_lands_on_observed", "C02_status_update_lands_on_observed", "C02_delete_hits_observed_uid",
                                                       "C02_recreated_never_deleted", "C02_created_born_with_references", "exec_log"]] + \
         [("Mc.Props.C02Sem", "Mc.Api." + t) for t in ["inv_reachable", "inv_exec", "rv_identifies", "uid_identifies"]]
+ATOMT = [("Mc.Props.AtomicSem", "Mc.Atomic.atomicLoop_accepted")]
 TB_API = ["Lean model of the API server (Mc/Api.lean: optimistic concurrency by resourceVersion, UID preconditions, finalizer-aware delete, status subresource, one-controller "
           "validation, generation bump, simplified server-side apply), checked against the Go simulator on every request the simulator answered (pre-state, body, options -> "
           "code, post-state, response; resourceVersions and UIDs of writes must be new); other API clients are arbitrary request sequences through the same model"]
@@ -114,8 +115,9 @@ PROPS = {
     "C02": sync_prop(C02T + C02CT + C04T[:1] + C04T[3:6] + C06T[-1:], ["create-child", "update-child", "delete-child", "apply-child", "create-revision", "update-revision", "delete-revision"],
                      "non-trivial = some child or ControllerRevision write was accepted" + RULE_INTERLEAVE, ["claim", "children", "revisions", "apimodel"],
                      extra_streams=[rounds("interleave", 600, 6000, ["create-child", "update-child", "delete-child", "failed-update", "failed-delete"])]),
-    "C04": sync_prop(C04T, ["update-child", "update-revision", "failed-update"],
-                     "non-trivial = an ownership edit or another child update was attempted" + RULE_INTERLEAVE, ["claim"],
+    "C04": sync_prop(C04T + ATOMT + [("Mc.Props.AtomicSem", "Mc.Atomic.C04_release_on_live"), ("Mc.Props.AtomicSem", "Mc.Atomic.C04_adopt_on_live")],
+                     ["update-child", "update-revision", "failed-update"],
+                     "non-trivial = an ownership edit or another child update was attempted" + RULE_INTERLEAVE, ["claim", "apimodel"],
                      extra_streams=[rounds("interleave", 600, 6000, ["update-child", "update-revision", "failed-update"])]),
     "C06": sync_prop(C06T + C06LT, ["update-child", "delete-child", "create-child"],
                      "non-trivial = some child write was accepted", ["children"]),
@@ -131,7 +133,7 @@ PROPS = {
     "C08": sync_prop(C08T, ["rounds-rollout", "update-revision"],
                      "non-trivial = a whole rollout scenario (summary line), or a sync that wrote a ControllerRevision" + RULE_ROUNDS, ["revisions", "children", "status"],
                      extra_streams=[rounds("rollout", 60, 360, ["rounds-rollout", "update-revision"])]),
-    "C11": sync_prop(C11T + [("Mc.Props.C02Sem", "Mc.C02.C02_status_update_lands_on_observed")], ["updateStatus-parent", "failed-updateStatus"],
+    "C11": sync_prop(C11T + [("Mc.Props.C02Sem", "Mc.C02.C02_status_update_lands_on_observed")] + ATOMT + [("Mc.Props.AtomicSem", "Mc.Atomic.C11_status_on_live")], ["updateStatus-parent", "failed-updateStatus"],
                      "non-trivial = a parent status write was attempted" + RULE_INTERLEAVE, ["status", "outcome", "apimodel"],
                      extra_streams=[rounds("interleave", 600, 6000, ["updateStatus-parent", "failed-updateStatus"])]),
     "C14": {
@@ -197,8 +199,8 @@ PROPS = {
                      "non-trivial = a hook was called; malformed stream: the scripted hook answer with one value at a random path replaced by every JSON type, "
                      "truncated / non-object / null bodies and non-200 codes", ["outcome", "hook", "children"],
                      extra_streams=[rounds("malformed", 800, 8000, ["outcome-error", "hook-sync", "hook-finalize"])]),
-    "C10": sync_prop(C10T + C10ST, ["update-parent", "hook-finalize", "create-child"],
-                     "non-trivial = the parent was edited, the finalize hook called, or a child created" + RULE_ROUNDS, ["finalizer", "parent", "hook", "children"],
+    "C10": sync_prop(C10T + C10ST + ATOMT + [("Mc.Props.AtomicSem", "Mc.Atomic.C10_finalizer_edit_on_live")], ["update-parent", "hook-finalize", "create-child"],
+                     "non-trivial = the parent was edited, the finalize hook called, or a child created" + RULE_ROUNDS, ["finalizer", "parent", "hook", "children", "apimodel"],
                      extra_streams=[rounds("faults", 96, 960, ["update-parent", "hook-finalize", "create-child", "failed-update"]),
                                     rounds("rollout", 60, 360, ["update-parent", "hook-finalize", "create-child"])]),
 
@@ -239,5 +241,5 @@ PROPS = {
     },
 }
 
-for _p in ("C02", "C11"):
+for _p in ("C02", "C04", "C10", "C11"):
     PROPS[_p]["trusted_base"] = PROPS[_p]["trusted_base"] + TB_API
